@@ -401,13 +401,31 @@ func (r *Router) getSamplerRules(w http.ResponseWriter, req *http.Request) {
 	format := strings.ToLower(mux.Vars(req)["format"])
 	dataset := mux.Vars(req)["dataset"]
 	cfg, name := r.Config.GetSamplerConfigForDestName(dataset)
+	initSamplerConfig(cfg)
 	r.marshalToFormat(w, map[string]interface{}{name: cfg}, format)
 }
 
 func (r *Router) getAllSamplerRules(w http.ResponseWriter, req *http.Request) {
 	format := strings.ToLower(mux.Vars(req)["format"])
 	cfgs := r.Config.GetAllSamplerRules()
+	if cfgs != nil {
+		for _, choice := range cfgs.Samplers {
+			if choice != nil {
+				choice.GetSamplingFields()
+			}
+		}
+	}
 	r.marshalToFormat(w, cfgs, format)
+}
+
+// initSamplerConfig makes sure a sampler config's lazily initialized parts
+// (rule conditions move Field into Fields on first use) are complete before the
+// config is marshaled, so that marshaling never reads them while an ingest
+// request initializes them.
+func initSamplerConfig(cfg interface{}) {
+	if f, ok := cfg.(config.GetSamplingFielder); ok {
+		f.GetSamplingFields()
+	}
 }
 
 func (r *Router) getConfigMetadata(w http.ResponseWriter, req *http.Request) {
